@@ -10,8 +10,8 @@ run():       g, c := errgroup.WithContext(ctx)
                                        select { case out[i] <- result: case <-c.Done(): return nil } }
              return nil
   dispatcher: for ok && err == nil { ok, err = it.Next()
-                 if ok { select { case in[write % n] <- item: case <-c.Done(): err = c.Err() }; write++ } }
-              for i := range in { close(in[i]) }; return err
+                 if ok && err == nil { select { case in[write % n] <- item: case <-c.Done(): err = c.Err() }; write++ } }
+              for i := range in { close(in[i]) }; return err     -- the source's error, if no goroutine failed before
   m.err = g.Wait()                                  -- step `store`: the field the consumer will read
   for i := range out { close(out[i]) }              -- step `close`: only now can a consumer see a closed out[i]
 Next():      read++; if current, ok = <-out[read % n]; ok { return true, nil }; return false, m.err
@@ -22,16 +22,20 @@ has the order of the code (store, then close); `stepSwapped` is the protocol wit
 Items are their indices `0 … N-1` (the value of item `k` is `f xs[k]`; `fails k` = `f` fails on it).  Lane `j` is
 `in[j]` → worker `j` → `out[j]`, each channel a one-slot buffer.  Leaving the dispatcher's loop and closing all
 `in` channels are two steps (`closing`); the closes of all `in`, `g.Wait()` + `m.err = …`, the closes of all `out`,
-and an errgroup `return err` are one step each.  Errors of the input iterator and cancellation of the caller's
-context are outside the model.
+and an errgroup `return err` are one step each.  Cancellation of the caller's context is outside the model.
 -/
 namespace B6.Model.Proto.MapParallel
 open B6.Model.Proto
 
 structure Cfg where
   n : Nat                -- cores
-  N : Nat                -- items
+  N : Nat                -- items the source iterator yields (before it ends or fails)
   fails : Nat → Bool
+  /-- does the source iterator end with an ERROR (when asked for item `N`)?  Lazy collections report a failing item
+  either as `(false, err)` (`filter` with a failing predicate) or as `(true, err)` (`map`, `map-items`, and whatever
+  passes their result on); the dispatcher's loop `for ok && err == nil` stops in both cases, so the model has one
+  step for both.  The source's error is written as the index `N` in `gerr` / `merr` / `fin`. -/
+  srcFails : Bool := false
 
 inductive Wk where
   | idle                 -- blocked in `range in[i]`
@@ -84,7 +88,10 @@ def dispStep (c : Cfg) (s : St) : List St :=
           | none => [])
         ++ guard (s.gerr.isSome = true) { s with disp := D.closing }           -- select: `<-c.Done()`
       else [{ s with disp := D.closing }]                                        -- the iterator is exhausted
-  | .closing => [{ s with disp := D.exited, inClosed := true }]
+  | .closing =>
+      -- close every in[i]; `return err`: the group keeps it if it is the first error (and cancels)
+      [{ s with disp := D.exited, inClosed := true,
+                gerr := if s.gerr.isSome then s.gerr else if c.srcFails then some c.N else none }]
   | .exited => []
 
 def workerStep (c : Cfg) (s : St) (j : Nat) (l : Lane) : List St :=
